@@ -139,8 +139,8 @@ def make_dataset(ctx, rng, idx):
     """returns dict(path, pf, full (DataFrame with rid), rg_rids [list of rid lists], cols info)"""
     import fastparquet
     n = rng.choice([0, 1, 5, 12, 30, 57])
-    if idx < 3:
-        n = [12, 30, 57][idx]
+    if idx < 10:
+        n = [12, 30, 57, 30, 57, 12, 57, 30, 12, 57][idx]
     kind = rng.choice(["simple", "simple", "hive", "hive-part", "hive-part2"])
     df = pd.DataFrame({"rid": np.arange(n, dtype="int64")})
     base = rng.randrange(-5, 50)
@@ -177,6 +177,8 @@ def make_dataset(ctx, rng, idx):
             parts = ["p", "q"]
     offs = rng.choice([None, 7, 4, [0, 3, 11] if n > 11 else [0], 1000])
     stats = rng.choice([True, True, "auto", ["i"], ["i", "f", "s", "n"], False])
+    if idx < 10:
+        stats = True
     path = os.path.join(ctx.workdir("c05"), f"ds{idx}")
     shutil.rmtree(path, ignore_errors=True)
     if os.path.exists(path):
@@ -193,10 +195,13 @@ def make_dataset(ctx, rng, idx):
     return {"path": path, "desc": desc, "parts": parts, "df": df}
 
 
-def mutate_stats(rng, pf):
+def mutate_stats(rng, pf, idx=None):
     """In-memory variants of the statistics a foreign writer may produce (all still *exact*):
     new-style fields only, one bound missing, null_count missing, statistics absent on some chunks."""
     mode = rng.choice(["asis", "asis", "newstyle", "drop-some", "drop-nullcount", "one-bound"])
+    if idx is not None and idx < 10:
+        # every statistics layout is exercised whatever the seed (the first datasets also have stats on every column)
+        mode = ["asis", "newstyle", "one-bound", "drop-nullcount", "drop-some"][idx % 5]
     if mode == "asis":
         return mode
     for rg in pf.row_groups:
@@ -256,7 +261,7 @@ def datasets(ctx, report):
     for d in range(nds):
         ds = make_dataset(ctx, rng, d)
         pf = fastparquet.ParquetFile(ds["path"])
-        smode = mutate_stats(rng, pf)
+        smode = mutate_stats(rng, pf, d)
         ds["desc"]["stats_mode"] = smode
         report.count("layout:" + ds["desc"]["layout"])
         report.count("stats_mode:" + smode)
